@@ -559,6 +559,11 @@ both!(ridge_norm, ridge_norm_t, 0.25);
 both!(ridge_raw, ridge_raw_t, 0.25);
 both!(ridge_offset, ridge_offset_t, 0.25);
 
+/// parameter builders keep every configured value whatever the order of the `with_*` steps
+fn builders_fam(c: &mut Case) {
+    scverif::builders::case(c, "C07")
+}
+
 fn main() {
     runner::main(Spec {
         property: "C07",
@@ -571,6 +576,7 @@ fn main() {
             "predict is checked on the training matrix X (the statement says predict(X))",
         ],
         families: vec![
+            Family::new("builders", 300, 3000, builders_fam),
             Family::new("ols", 4000, 60000, ols),
             Family::new("ridge_norm", 3500, 50000, ridge_norm),
             Family::new("ridge_raw", 2500, 40000, ridge_raw),
